@@ -319,8 +319,8 @@ theorem restart_is_fresh_partial_start (s : S) (h sig : Nat) (os : Bool)
   exact absurd hms (hnone L m hm hmh)
 
 /-- `restart_is_fresh_partial` (b): under `FreshH`, the callback produced for a message is for the
-current incarnation.  (Missing for the full statement: nothing — it is false; `FreshH` is preserved
-by every event except the restart excluded in (a); that preservation is not proved here.) -/
+current incarnation.  (Step-level form; the statement over whole event sequences is
+`restart_is_fresh_partial` below, proved through the invariant `Aux.fresh`.) -/
 theorem restart_is_fresh_partial_dispatch (sc : Script) (s : S) (L : Nat) (m : Msg) (hin : m ∈ s.pipes L)
     (hf : FreshH s m.h) (h sig L' mgen hgen : Nat)
     (hc : Cb.signal h sig L' mgen hgen ∈ (dispatchMsg sc s L m).trace) (hnew : Cb.signal h sig L' mgen hgen ∉ s.trace) :
@@ -392,5 +392,138 @@ theorem own_callback_restart_survives_partial (sc : Script) (s : S) (L : Nat) (m
         intro s2 e2; simp only [sigStop, e2, ↓reduceIte]; split <;> (try split) <;> rfl
       rw [hhs _ e] at hreg; simp at hreg hos; rw [hreg] at hos; simp at hos
   · simp
+
+
+/-! ## end-to-end statements over reachable states (second invariant `Aux`) -/
+
+theorem reach_aux {s : S} (h : Reach s) : Aux s := by
+  obtain ⟨lo, sc, evs, rfl⟩ := h; exact aux_runEvs sc evs (inv_init lo) (aux_init lo)
+
+theorem targets_count {s : S} (hr : Reach s) (sig h : Nat) :
+    (handlerTargets s.tree sig).countP (fun k => k.id = h) =
+      if (s.hs h).signum = sig ∧ sig ≠ 0 then 1 else 0 := by
+  have hv := fanout_visits hr sig
+  rw [countP_id_nodup _ hv.1 (keyOf h (s.hs h)) h rfl]
+  · have := hv.2 (keyOf h (s.hs h))
+    by_cases c : (s.hs h).signum = sig ∧ sig ≠ 0
+    · rw [if_pos c, if_pos (this.2 ⟨rfl, c.1, c.2⟩)]
+    · rw [if_neg c, if_neg (fun hin => c ⟨(this.1 hin).2.1, (this.1 hin).2.2⟩)]
+  · intro k hk e
+    have := ((hv.2 k).1 hk).1
+    rw [e] at this; exact this
+
+/-- **`fanout`, end to end.**  In every reachable state, a delivery of `sig` while libuv's handler is
+installed (a) bumps `caught` of every handle watching `sig` by exactly 1 and of no other handle,
+(b) adds exactly one message for each such handle to the pipe of that handle's own loop — and no
+message for anybody else, on any loop —, (c) all added messages carry `sig`. -/
+theorem fanout {s : S} (hr : Reach s) (sig : Nat) (r : Bool) (hd : s.disp sig = .uv r) :
+    (∀ h, ((deliver s sig).hs h).caught =
+        (s.hs h).caught + (if (s.hs h).signum = sig ∧ sig ≠ 0 then 1 else 0)) ∧
+    (∀ L h, cntFor (deliver s sig) L h =
+        cntFor s L h + (if ((s.hs h).signum = sig ∧ sig ≠ 0) ∧ (s.hs h).loop = L then 1 else 0)) ∧
+    (∀ L, ∃ added, (deliver s sig).pipes L = s.pipes L ++ added ∧ ∀ m ∈ added, m.sig = sig) := by
+  obtain ⟨s0, he, ht, hh, hp⟩ := fanout_deliver sig r hd
+  refine ⟨?_, ?_, ?_⟩
+  · intro h; rw [he, foldl_enqueue_caught, hh, targets_count hr]
+  · intro L h
+    unfold cntFor
+    rw [he, foldl_enqueue_pipes, hp, hh, List.countP_append, List.countP_map, List.countP_filter]
+    congr 1
+    by_cases eL : (s.hs h).loop = L
+    · have hite : (if ((s.hs h).signum = sig ∧ sig ≠ 0) ∧ (s.hs h).loop = L then 1 else 0) =
+          (if (s.hs h).signum = sig ∧ sig ≠ 0 then 1 else 0) := by
+        by_cases c : (s.hs h).signum = sig ∧ sig ≠ 0
+        · rw [if_pos c, if_pos ⟨c, eL⟩]
+        · rw [if_neg c, if_neg (fun c2 => c c2.1)]
+      rw [hite, ← targets_count hr sig h]
+      apply List.countP_congr
+      intro k _; simp only [Function.comp, Bool.and_eq_true, decide_eq_true_eq]
+      constructor
+      · exact fun h1 => h1.1
+      · intro h1; exact ⟨h1, by rw [h1]; exact eL⟩
+    · rw [if_neg (fun c => eL c.2)]
+      apply List.countP_eq_zero.2
+      intro k _; simp only [Function.comp, Bool.and_eq_true, decide_eq_true_eq]
+      intro h1; apply eL; rw [← h1.1]; exact h1.2
+  · intro L; refine ⟨_, by rw [he, foldl_enqueue_pipes, hp], ?_⟩
+    intro m hm; simp only [List.mem_map] at hm; obtain ⟨k, _, rfl⟩ := hm; rfl
+
+example : cntFor w1 0 0 = 2 ∧ cntFor w1 0 2 = 2 ∧ cntFor w1 1 1 = 2 ∧ cntFor w1 0 1 = 0 ∧ w1.disp 10 = .uv false := by decide
+
+/-- **`close_waits_for_caught`, reachable-state version.**  Once the close callback of a handle has
+run, no pipe of any loop holds a message naming that handle (so no later `uv__signal_event` can touch
+the freed memory), and every signal caught for it was counted as dispatched first. -/
+theorem closed_no_message {s : S} (hr : Reach s) (h : Nat) (hc : (s.hs h).closed = true) :
+    (∀ L, ∀ m ∈ s.pipes L, m.h ≠ h) ∧ (s.hs h).caught = (s.hs h).dispatched := by
+  have ha := reach_aux hr
+  have h0 := (ha.closedDone h hc).1
+  simp only [Nat.add_zero] at h0
+  refine ⟨?_, by have := ha.cnt h; omega⟩
+  intro L m hm e
+  have hl := (ha.own L m hm).1
+  rw [e] at hl; subst hl
+  unfold cntFor at h0
+  have := List.countP_eq_zero.1 h0 m hm
+  simp [e] at this
+
+/-- the close callback is reported exactly when `closed` is set; never for a handle with a pending
+message: messages in any pipe belong to handles that are not closed. -/
+theorem message_handle_not_closed {s : S} (hr : Reach s) (L : Nat) (m : Msg) (hm : m ∈ s.pipes L) :
+    (s.hs m.h).closed = false ∧ (s.hs m.h).loop = L ∧ m.sig ≠ 0 := by
+  have ha := reach_aux hr
+  refine ⟨?_, (ha.own L m hm).1, (ha.own L m hm).2⟩
+  cases hc : (s.hs m.h).closed
+  · rfl
+  · exact absurd rfl ((closed_no_message hr m.h hc).1 L m hm)
+
+example : (runLoop (fun _ => []) w2 0).pipes 0 = [] ∧ ((runLoop (fun _ => []) w2 0).hs 0).closed = true ∧
+    (w2.hs 0).closed = false ∧ (w2.pipes 0).length = 2 := by decide
+
+/-- **`restart_is_fresh_partial`, over event sequences.**  For every event sequence, callback script
+and loop assignment: if no `uv_signal_start`/`uv_signal_start_oneshot` was ever performed (by the
+program or by a callback) at a moment when the pipe of the handle's loop held a message for that
+handle with the signum being started — that is exactly what the ghost flag `stale` records, see
+`sigStart_stale` — then every signal callback of the run was for a signal caught by the incarnation
+of the handle that received it.  (The full statement `restart_is_fresh` drops the hypothesis and is
+false: `restart_is_fresh_false`.) -/
+theorem restart_is_fresh_partial (loopOf : Nat → Nat) (sc : Script) (evs : List Ev)
+    (hclean : (runEvs sc (init loopOf) evs).stale = false) (h sig L mgen hgen : Nat)
+    (hcb : Cb.signal h sig L mgen hgen ∈ (runEvs sc (init loopOf) evs).trace) : mgen = hgen :=
+  ((reach_aux ⟨loopOf, sc, evs, rfl⟩).fresh hclean).2 h sig L mgen hgen hcb
+
+/-- what sets `stale`: only a start that goes past the short-circuit while a message for the handle
+with the same signum is pending in its loop's pipe. -/
+theorem sigStart_stale (s : S) (h sig : Nat) (os : Bool) (hst : (sigStart s h sig os).1.stale = true) :
+    s.stale = true ∨ pendingSame (sigStop s h) h sig = true := by
+  have hs := (sigStop_fields s h).2.2.2.2
+  rcases sigStart_shape s h sig os with e | e | ⟨tr, d', dl', e⟩
+  · rw [e] at hst; exact Or.inl hst
+  · rw [e, hs] at hst; exact Or.inl hst
+  · rw [e] at hst; simp only [Bool.or_eq_true] at hst; rw [hs] at hst; exact hst
+
+/-- and in a clean state with the loop's pipe free of messages for `h` carrying `sig` (in particular:
+empty pipe, or a different signum) a start keeps the run clean. -/
+theorem sigStart_keeps_clean (s : S) (h sig : Nat) (os : Bool) (hclean : s.stale = false)
+    (hnone : ∀ m ∈ s.pipes (s.hs h).loop, m.h = h → m.sig ≠ sig) : (sigStart s h sig os).1.stale = false := by
+  cases hst : (sigStart s h sig os).1.stale
+  · rfl
+  · exfalso
+    rcases sigStart_stale s h sig os hst with h1 | h1
+    · rw [hclean] at h1; exact absurd h1 (by simp)
+    · unfold pendingSame at h1
+      rw [(sigStop_fields s h).2.1] at h1
+      have hl : ((sigStop s h).hs h).loop = (s.hs h).loop := by
+        by_cases e : (s.hs h).signum = 0
+        · rw [sigStop_noop e]
+        · rw [sigStop_hs e]; simp
+      rw [hl] at h1
+      obtain ⟨m, hm, hp⟩ := List.any_eq_true.1 h1
+      simp only [Bool.and_eq_true, decide_eq_true_eq] at hp
+      exact hnone m hm hp.1 hp.2
+
+example : (runEvs (fun _ => []) (init (fun _ => 0))
+    [.op (.start 0 10), .deliver 10, .op (.stop 0), .op (.start 0 12), .dispatch 0, .op (.start 0 10), .deliver 10, .dispatch 0]).stale = false := by decide
+example : (runEvs (fun _ => []) (init (fun _ => 0))
+    [.op (.start 0 10), .deliver 10, .op (.stop 0), .op (.start 0 10)]).stale = true := by decide
 
 end UvModel.Props.C13
